@@ -24,8 +24,8 @@ from liquid2.builtin import quote_identifier
 from liquid2.builtin import parse_string_or_path
 from liquid2.exceptions import LiquidSyntaxError
 from liquid2.exceptions import LiquidTypeError
+from liquid2.exceptions import LiquidValueError
 from liquid2.exceptions import TemplateNotFoundError
-from liquid2.stringify import to_liquid_string
 
 if TYPE_CHECKING:
     from liquid2 import RenderContext
@@ -79,9 +79,16 @@ class IncludeNode(Node):
             f"{self.name}{var}{args} {self.token.wc[1]}%}}"
         )
 
+    def _template_name(self, name: object) -> str:
+        try:
+            return str(name)
+        except ValueError as err:
+            # An integer with more digits than the interpreter is willing to convert.
+            raise LiquidValueError(str(err), token=self.name.token) from err
+
     def render_to_output(self, context: RenderContext, buffer: TextIO) -> int:
         """Render the node to the output buffer."""
-        name = to_liquid_string(self.name.evaluate(context))
+        name = self._template_name(self.name.evaluate(context))
 
         try:
             template = context.env.get_template(
@@ -124,7 +131,7 @@ class IncludeNode(Node):
         self, context: RenderContext, buffer: TextIO
     ) -> int:
         """Render the node to the output buffer."""
-        name = to_liquid_string(await self.name.evaluate_async(context))
+        name = self._template_name(await self.name.evaluate_async(context))
 
         try:
             template = await context.env.get_template_async(
